@@ -63,7 +63,14 @@ def parse_all(text, mode):
 def parse_settings(text, mode):
     P = env()['PbnParser']
     try:
-        return J.show_many(J.show_setting, read_lines_mode(text, mode, lambda fp: P().parse_board_settings(fp)))
+        got = read_lines_mode(text, mode, lambda fp: P().parse_board_settings(fp))
+        line = J.show_many(J.show_setting, got)
+        # the boards read are USED (played out in place, as PlayingPhaseWithHands does with the hands it is given), so that
+        # a reader which hands out shared mutable sets (a cache) shows when the same file / board is read again
+        for g in got:
+            for pl in env()['Player']:
+                g.hands[pl].clear()
+        return line
     except Exception:
         return 'ERR'
 
